@@ -224,7 +224,20 @@ fn mutate_json(rng: &mut Rng, v: &Value, what: &mut String) -> Value {
             let mut a = obj["appointment"].as_object().cloned().unwrap_or_default();
             let ks: Vec<String> = a.keys().cloned().collect();
             let k = ks[rng.usize(ks.len())].clone();
-            match rng.below(5) {
+            match rng.below(8) {
+                5 | 6 | 7 => {
+                    // a hex sub-field one byte longer / one byte shorter / of odd length
+                    let k = if rng.chance(2, 3) { "locator".to_string() } else { "encrypted_blob".to_string() };
+                    if let Some(sv) = a.get(&k).and_then(|x| x.as_str()).map(|x| x.to_string()) {
+                        let ns = match rng.below(3) {
+                            0 => format!("{sv}ab"),
+                            1 => sv[..sv.len().saturating_sub(2)].to_string(),
+                            _ => format!("{sv}a"),
+                        };
+                        *what = format!("resize appointment.{k} {} -> {}", sv.len(), ns.len());
+                        a.insert(k, json!(ns));
+                    }
+                }
                 0 => {
                     a.remove(&k);
                     *what = format!("drop appointment.{k}");
